@@ -7,9 +7,9 @@ from ..ppgrammar import Grammar
 from . import common as C
 from . import parsers as P
 
-TECHNIQUE = "static analysis: abstract interpretation of construct_parser into a grammar IR (result-name trees, terminal vocabulary); writer/reader agreement between grammar result names and post-processing key reads; number-base agreement between tokens and conversions; classification-order and whole-line checks on parse_line; affine line numbering; (thorough) language inclusion of the property's line language in a regular over-approximation of the grammar"
+TECHNIQUE = "static analysis: abstract interpretation of construct_parser into a grammar IR (result-name trees, terminal vocabulary); writer/reader agreement between grammar result names and post-processing key reads; number-base agreement between tokens and conversions; classification-order and whole-line checks on parse_line; product-automaton search for ties/shadowing between alternatives of each alternation against a reviewed order table; affine line numbering; (thorough) language inclusion of the property's line language in a regular over-approximation of the grammar"
 EXPLANATION = (
-    "R1: the number handed to parse_line is derived symbolically (0-based index of the line in content.split('\\n'), from enumerate minus its start or from a counter that the CFG shows to be incremented in every iteration) and must equal index + 1 + start_line; nothing is removed from the text before the split (rstrip only); only blank lines are skipped, inside the numbered loop. R2: the line attribute is the untouched parameter. R3: attempts in the order comment, label, directive, instruction, each later one guarded by 'no earlier result', each on the whole line; mnemonic and operands are set only for instructions; an unparsable line raises. R4: every result name the operand model needs (memory offset/base/index/scale, register name, immediate value, identifier/label name, directive name/parameters) is produced by the grammar under that operand and read by the post-processing; no key is read that the grammar cannot produce; every operand alternative is dispatched. R5: every conversion of a token that may be hexadecimal uses base 0; the scale defaults to 1. R6: instruction, label and directive grammars end with the optional comment; no whitespace-sensitivity switch. T: the terminals cover the characters/literals the property's inputs use. R7 (thorough): the language of rendered lines described by the property is included in the grammar's regular envelope."
+    "R1: the number handed to parse_line is derived symbolically (0-based index of the line in content.split('\\n'), from enumerate minus its start or from a counter that the CFG shows to be incremented in every iteration) and must equal index + 1 + start_line; nothing is removed from the text before the split (rstrip only); only blank lines are skipped, inside the numbered loop. R2: the line attribute is the untouched parameter. R3: attempts in the order comment, label, directive, instruction, each later one guarded by 'no earlier result', each on the whole line; mnemonic and operands are set only for instructions; an unparsable line raises. R4: every result name the operand model needs (memory offset/base/index/scale, register name, immediate value, identifier/label name, directive name/parameters) is produced by the grammar under that operand and read by the post-processing; no key is read that the grammar cannot produce; every operand alternative is dispatched. R5: every conversion of a token that may be hexadecimal uses base 0; the scale defaults to 1. R6: instruction, label and directive grammars end with the optional comment; no whitespace-sensitivity switch. T: the terminals cover the characters/literals the property's inputs use. R8: pyparsing's `^` returns the longest match and the first listed alternative among equally long ones, `|` the first alternative that matches at all; for every pair of alternatives of one alternation whose regular envelopes share a word (tie) or where a word of one is a prefix of a word of the other (shadowing) the order in the code must be the reviewed one of spec/grammar_order.json (pairs are identified by result name and by the probe strings their envelopes accept); a reviewed pair in reversed order is a violation when its inputs belong to the property's vocabulary (displacement-only memory reference vs. numeric label, hexadecimal vs. decimal, number vs. identifier, offset(base) vs. bare offset), otherwise it is reported as not understood. R7 (thorough): the language of rendered lines described by the property is included in the grammar's regular envelope."
 )
 NOT_DECIDED = (
     "That the recovered operand values equal the written ones for every input (a property of pyparsing's run "
@@ -57,6 +57,7 @@ def run(ctx):
     ctx.check(bool(mn) and U(mn[0].value) == "result['mnemonic'].split(',')[0]", "R4", "mnemonic is the parsed mnemonic token", inst.where(),
               "mnemonic is %s" % (U(mn[0].value) if mn else None), inst.qname, "mnemonic source")
     P.r6_trailing(ctx, CLS, gr)
+    P.r8_order(ctx, CLS, gr, "R8")
     P.t_terminals(ctx, CLS, gr)
     if ctx.tier == "thorough":
         from .. import automata
